@@ -596,3 +596,58 @@ def module_constants(ctx, modname, seed=None):
             except (Unknown, TypeError, AttributeError, KeyError, IndexError):
                 continue
     return env
+
+
+def recv_length_caps(ctx, R):
+    """RecordSocket.recv: the declared record length is capped before the body is read (allocated).
+    The header variable is whatever the code binds from _recvHeader(); the union of the effective
+    abort gates on its `.length` must refuse exactly lengths above limit+2048, and above limit+256
+    for TLS 1.3 framing (evaluated over boundary values, names resolved)."""
+    from ..condeval import ev, Unknown
+    rs = ctx.index.func("recordlayer:RecordSocket.recv")
+    g = ctx.an.cfg(rs)
+    hdr = [n for n in g.nodes if n.kind in ("consume", "loop") and n.var and getattr(n, "call", None) is not None
+           and call_name(n.call) == "_recvHeader"]
+    if not hdr:
+        hdr = [n for n in g.nodes if n.kind == "loop" and n.var and isinstance(n.expr, ast.Call) and call_name(n.expr) == "_recvHeader"]
+    if not hdr:
+        raise AnalysisError("%s: _recvHeader consumption not found in RecordSocket.recv" % R)
+    H = hdr[0].var
+    L = "%s.length" % H
+    body = [n for n in consumes_of(g, "_sockRecvAll")]
+    if not body:
+        raise AnalysisError("%s: record body read not found" % R)
+    ctx.check(R, resolved_text(rs.node, body[0].call.args[0]) == L if body[0].call.args else False, rs.qname,
+              "the body read asks for exactly the declared length",
+              "RecordSocket.recv reads `%s` bytes, not the length its header declared" % (norm(body[0].call.args[0]) if body[0].call.args else "?"),
+              rs.loc(body[0].ast) if body[0].ast is not None else rs.loc())
+    gates = []
+    for t in g.nodes:
+        if t.kind != "test" or t.expr is None:
+            continue
+        if L not in resolved_text(rs.node, t.expr):
+            continue
+        if "T" in dead_edge_labels(g, t, body) or "F" in dead_edge_labels(g, t, body):
+            gates.append(t)
+    bad = None
+    for tls13 in (False, True):
+        for ln in (100, 16384 + 256, 16384 + 257, 16384 + 2048, 16384 + 2049, 70000):
+            aborted = False
+            for t in gates:
+                import copy
+                e = ast.parse(resolved_text(rs.node, t.expr), mode="eval").body
+                try:
+                    v = bool(ev(e, {L: ln, "self.recv_record_limit": 16384, "self.tls13record": tls13}))
+                except (Unknown, TypeError):
+                    continue
+                dl = dead_edge_labels(g, t, body)
+                if ("T" in dl and v) or ("F" in dl and not v):
+                    aborted = True
+            want = ln > 16384 + 2048 or (tls13 and ln > 16384 + 256)
+            if aborted != want:
+                bad = (tls13, ln, aborted)
+    ctx.check(R, bad is None and len(gates) >= 1, rs.qname, "record length capped before the body is read (allocation bound)",
+              "the record body is read (allocated) before the declared length was checked against the limits "
+              "(limit + 2048; limit + 256 under TLS 1.3 framing): %s" % (
+                  "for tls13record=%s a declared length of %d is %s" % (bad[0], bad[1], "refused" if bad[2] else "accepted")
+                  if bad else "no effective check found"), rs.loc())
